@@ -3,7 +3,7 @@
    rotation kernel is an oracle whose optimality is C06; contacts are Model_contact (C05/C14),
    the superposition step is Model_superpose (C13)).  Spec: Spec_rmsd. *)
 From Verif Require Import PyLib ModelTypes Generated_parse Generated_rmsd Model_contact Model_superpose Spec_superpose
-  Model_rmsd Spec_rmsd Proofs_superpose Proofs_rmsd.
+  Model_rmsd Spec_rmsd Proofs_superpose Proofs_rmsd Proofs_contact_c05 Proofs_izone.
 Open Scope Q_scope.
 
 (* the three fixed-column readers of the fast routes read today's wwPDB columns (regenerated) *)
@@ -61,10 +61,15 @@ Theorem C07_identical_scores_zero : forall rmat P m,
 Proof. exact identical_scores_zero. Qed.
 Print Assumptions C07_identical_scores_zero.
 
-(* PARTIAL: "the zone is exactly the reference residues having any atom within the cutoff of the
-   partner chain" (compute_izone = izone_spec) is decided on every run by comparing implementation,
-   extracted model and extracted specification zones; the Coq proof linking Model_rmsd.compute_izone to
-   the C05/C14 theorems is not done yet. *)
+(* the interface zone computed by the library IS the set of reference residues (carrying a backbone
+   atom) that have any atom within the cutoff of the partner chain — for every two-chain reference,
+   every non-negative cutoff (built on the C05 exactness and C14 closure theorems) *)
+Theorem C07_izone_exact : forall cutoff ref c1 c2,
+  (0 <= cutoff)%Q -> wf ref -> get_chains ref = [c1; c2] ->
+  compute_izone cutoff ref = Ok (izone_spec cutoff ref).
+Proof. exact izone_exact. Qed.
+Print Assumptions C07_izone_exact.
+
 Example C07_example :
   let r := [mkAtom 0 "A" "ALA" 1 "CA" 0 0 0; mkAtom 1 "A" "ALA" 1 "CB" 1 0 0; mkAtom 2 "B" "GLY" (-2) "N" 3 0 0;
             mkAtom 3 "B" "GLY" (-2) "CA" 4 0 0; mkAtom 4 "B" "SER" 5 "CA" 40 0 0]%string in
